@@ -60,7 +60,7 @@ Qed.
 
 Definition add1 (tid : N) (n : note) : note :=
   if memN tid (n_spent n) then n
-  else mkNote (n_key n) (n_acct n) (n_value n) (n_recv n) (n_spent n ++ [tid]).
+  else mkNote (n_key n) (n_acct n) (n_value n) (n_recv n) (n_idx n) (n_spent n ++ [tid]).
 
 Lemma add1_key tid n : n_key (add1 tid n) = n_key n.
 Proof. unfold add1. destruct (memN tid (n_spent n)); reflexivity. Qed.
@@ -81,7 +81,7 @@ Proof.
   - destruct (key_eqb (n_key n) k) eqn:E.
     + destruct (existsb _ (n_spent n)); [discriminate|]. inversion H; subst. clear H.
       apply key_eqb_eq in E. subst k. cbn [find_note].
-      assert (Hk : n_key (if memN tid (n_spent n) then n else mkNote (n_key n) (n_acct n) (n_value n) (n_recv n) (n_spent n ++ [tid])) = n_key n)
+      assert (Hk : n_key (if memN tid (n_spent n) then n else mkNote (n_key n) (n_acct n) (n_value n) (n_recv n) (n_idx n) (n_spent n ++ [tid])) = n_key n)
         by (destruct (memN tid (n_spent n)); reflexivity).
       rewrite Hk. destruct (key_eqb (n_key n) k') eqn:E'; [|reflexivity].
       cbn [option_map]. unfold add1. reflexivity.
@@ -123,11 +123,11 @@ Proof.
     intuition (subst; auto).
 Qed.
 
-Lemma find_put_note k a v r sp : forall l k',
-  find_note k' (put_note k a v r sp l)
-  = if key_eqb k k' then Some (mkNote k a v r (add_spender sp (spent_of k l))) else find_note k' l.
+Lemma find_put_note k a v r idx sp : forall l k',
+  find_note k' (put_note_k k a v r idx sp l)
+  = if key_eqb k k' then Some (mkNote k a v r idx (add_spender sp (spent_of k l))) else find_note k' l.
 Proof.
-  unfold spent_of. induction l as [|n l IH]; intros k'; cbn [put_note find_note].
+  unfold spent_of. induction l as [|n l IH]; intros k'; cbn [put_note_k find_note].
   - cbn [n_key]. destruct (key_eqb k k'); reflexivity.
   - destruct (key_eqb (n_key n) k) eqn:E.
     + cbn [find_note n_key]. destruct (key_eqb k k') eqn:E'; [reflexivity|].
@@ -146,11 +146,11 @@ Proof.
   - split; [auto | intros [? | ?]; [assumption | discriminate]].
 Qed.
 
-Lemma put_note_of k a v r sp l k' :
-  (has_key k' (put_note k a v r sp l) <-> has_key k' l \/ k = k')
-  /\ (forall x, In x (spent_of k' (put_note k a v r sp l)) <-> In x (spent_of k' l) \/ (k = k' /\ sp = Some x)).
+Lemma put_note_of k a v r idx sp l k' :
+  (has_key k' (put_note_k k a v r idx sp l) <-> has_key k' l \/ k = k')
+  /\ (forall x, In x (spent_of k' (put_note_k k a v r idx sp l)) <-> In x (spent_of k' l) \/ (k = k' /\ sp = Some x)).
 Proof.
-  pose proof (find_put_note k a v r sp l k') as F. rewrite !find_note_has. unfold spent_of at 1. rewrite F.
+  pose proof (find_put_note k a v r idx sp l k') as F. rewrite !find_note_has. unfold spent_of at 1. rewrite F.
   destruct (key_eqb k k') eqn:E.
   - apply key_eqb_eq in E. subst k'. split; [split; eauto|].
     intros x. cbn [n_spent]. rewrite add_spender_In. split; [intros [?|?]; auto | intros [? | [_ ?]]; auto].
@@ -325,19 +325,25 @@ Qed.
 (** * put_outputs *)
 
 Lemma put_outputs_of nfm locs recv : forall os txs notes txs' notes',
+  (forall o o', In o os -> In o' os -> pairc o o') ->
+  (forall o, In o os -> keyed notes (o_key o) recv (o_idx o)) ->
   put_outputs nfm locs recv os txs notes = (txs', notes') ->
   (forall k', has_key k' notes' <-> has_key k' notes \/ In k' (map o_key os))
   /\ (forall k' x, In x (spent_of k' notes') <->
         In x (spent_of k' notes) \/ (In k' (map o_key os) /\ exists hh, detect_spend nfm locs k' = Some (x, hh))).
 Proof.
-  induction os as [|o os IH]; intros txs notes txs' notes' H; cbn [put_outputs] in H.
+  induction os as [|o os IH]; intros txs notes txs' notes' Hpair Hkeyed H; cbn [put_outputs] in H.
   - inversion H; subst. split; [intros k'; cbn; tauto|]. intros k' x. cbn. split; [auto | intros [? | [[] _]]; assumption].
-  - destruct (IH _ _ _ _ H) as [K S].
-    set (sp := match detect_spend nfm locs (o_key o) with Some (t, _) => Some t | None => None end) in *.
+  - set (sp := match detect_spend nfm locs (o_key o) with Some (t, _) => Some t | None => None end) in *.
+    rewrite (put_note_keyed _ _ _ _ _ _ _ (Hkeyed o (or_introl eq_refl))) in H.
+    assert (Hkeyed' : forall o', In o' os -> keyed (put_note_k (o_key o) (out_acct o) (o_value o) recv (o_idx o) sp notes) (o_key o') recv (o_idx o')).
+    { intros o' Ho'. apply keyed_put_k; [apply Hkeyed; right; assumption|].
+      apply (Hpair o o'); [left; reflexivity | right; assumption]. }
+    destruct (IH _ _ _ _ (fun a b Ha Hb => Hpair a b (or_intror Ha) (or_intror Hb)) Hkeyed' H) as [K S].
     split.
-    + intros k'. rewrite K. destruct (put_note_of (o_key o) (out_acct o) (o_value o) recv sp notes k') as [K1 _].
+    + intros k'. rewrite K. destruct (put_note_of (o_key o) (out_acct o) (o_value o) recv (o_idx o) sp notes k') as [K1 _].
       rewrite K1. cbn [map In]. tauto.
-    + intros k' x. rewrite S. destruct (put_note_of (o_key o) (out_acct o) (o_value o) recv sp notes k') as [_ S1].
+    + intros k' x. rewrite S. destruct (put_note_of (o_key o) (out_acct o) (o_value o) recv (o_idx o) sp notes k') as [_ S1].
       rewrite S1. cbn [map In].
       assert (Hsp : forall y, sp = Some y <-> exists hh, detect_spend nfm locs (o_key o) = Some (y, hh)).
       { intros y. unfold sp. destruct (detect_spend nfm locs (o_key o)) as [[t0 h0]|].
